@@ -18,7 +18,7 @@ VARIABLES desc, term, dense, pc
 vars == <<desc, term, dense, pc>>
 N == 4
 Cls == <<"Dense", "Diag", "ConstDiag", "Identity", "Toeplitz", "Chol", "Kron", "KronDiag", "KronAddedDiag", "SumKron", "AddedDiag",
-         "LRRAddedDiag", "Sum", "PsdSum", "ConstMul", "BlockDiag", "BlockInter", "BatchRepeat", "Mul", "AddedDiagI", "LRRAddedDiagI">>
+         "LRRAddedDiag", "Sum", "PsdSum", "ConstMul", "BlockDiag", "BlockInter", "BatchRepeat", "Mul", "AddedDiagI", "LRRAddedDiagI", "MixedDef">>
 Batches == << <<>>, <<2>> >>
 DepthOf(c) == IF c \in G_LeafClasses THEN 0 ELSE 1
 
@@ -30,6 +30,8 @@ Queries == << <<"cholesky", "lower", "LLt", TRUE>>, <<"cholesky", "upper", "RtR"
               <<"root_inv_decomposition", "none", "RRtInv", TRUE>>, <<"root_inv_decomposition", "cholesky", "RRtInv", TRUE>>,
               <<"root_inv_decomposition", "symeig", "RRtInv", TRUE>>, <<"root_inv_decomposition", "lanczos", "RRtInv", FALSE>>,
               <<"root_inv_decomposition", "pinverse", "RRtInv", TRUE>>,
+              \* a factorization queried after the same factorization of a derived operator that shares this one (K.add_jitter(c).svd(), then K.svd())
+              <<"svd_after_jitter_svd", "none", "svd", TRUE>>, <<"eigh_after_jitter_eigh", "none", "eig", TRUE>>,
               <<"eigh", "none", "eig", TRUE>>, <<"linalg_eigh", "none", "eig", TRUE>>, <<"eigvalsh", "none", "eigvals", TRUE>>,
               <<"linalg_eigvalsh", "none", "eigvals", TRUE>>, <<"svd", "none", "svd", TRUE>>, <<"linalg_svd", "none", "svd", TRUE>>,
               <<"diagonalization", "none", "eig", TRUE>>, <<"diagonalization", "symeig", "eig", TRUE>>, <<"diagonalization", "lanczos", "eig", FALSE>>,
@@ -59,8 +61,10 @@ Init ==
   /\ \E ci \in 1..Len(Cls), bi \in 1..Len(Batches), qi \in 1..Len(Queries), t \in Thresholds, sd \in {1, 100000} :
        /\ ((ci + bi + qi + ThrId(t)) % NParts = Part)
        /\ (sd # 1 => Cls[ci] \in ScaledCls /\ Queries[qi][3] # "cov" /\ t.max_root = 100)
-       /\ (Tier = "quick" => IF sd = 1 THEN ((ci + qi + ThrId(t) + bi) % 3 = 0)
+       /\ (Tier = "quick" => IF Cls[ci] = "MixedDef" THEN TRUE ELSE IF sd = 1 THEN ((ci + qi + ThrId(t) + bi) % 3 = 0)
                              ELSE (Queries[qi][2] = "pivoted_cholesky" \/ (ci + qi + ThrId(t) + bi) % 5 = 0))
+       \* the mixed-definiteness batch: Cholesky-type queries on its own batch shape only
+       /\ (Cls[ci] = "MixedDef" => bi = 1 /\ sd = 1 /\ Queries[qi][1] \in {"cholesky", "linalg_cholesky"} /\ t.max_chol = 800)
        /\ (Queries[qi][1] = "sample_ciq" => t.max_root = 100 /\ t.max_chol = 800 /\ ~t.fast_root)
        /\ desc = [cls |-> Cls[ci], b |-> Batches[bi], query |-> Queries[qi][1], method |-> Queries[qi][2], relation |-> Queries[qi][3],
                   exact |-> ExactUnder(Queries[qi], t), thr |-> t, id |-> (((ci * 4 + bi) * 32 + qi) * 8 + ThrId(t)) * 2 + (IF sd = 1 THEN 0 ELSE 1),
